@@ -1,4 +1,4 @@
-CONSTANTS N = 3  Shapes = {"empty", "nonl", "multi", "mlike"}  Statuses = {0, 3}  Pres = {"none"}
+CONSTANTS N = 3  Shapes = {"probe", "nonl"}  Statuses = {0}  Pres = {"none", "wd", "env", "both"}
 CONSTANTS AllowTimeout = FALSE  AllowKill = FALSE
 CONSTANTS FallbackShell = FALSE  CloseOnFailure = FALSE  FallbackOnTimeout = TRUE  PreambleInShell = FALSE
 INIT MCInit
@@ -7,7 +7,6 @@ VIEW View
 INVARIANT TypeOK
 INVARIANT FreshEquivalence
 INVARIANT OwnOutput
-INVARIANT NoSpuriousTimeout
+INVARIANT ShellStateUnchanged
 INVARIANT ReturnedOnce
 INVARIANT NeverTwice
-INVARIANT VerbatimCommand
